@@ -119,6 +119,11 @@ class World:
         self.keyof = {'P': [], 'T': []}
         self.held = {'P': {}, 'T': {}}
         self.destroyed = {'P': set(), 'T': set()}
+        # reference bookkeeping of the UNCHANGED code's cache membership, kept by the harness from the API calls alone
+        # (never read from the implementation): it decides whether a stale read belongs to a recorded finding
+        self.att = {'P': [], 'T': []}
+        self.weakened = {'P': set(), 'T': set()}
+        self.allocs = []
         self.taint = {'P': set(), 'T': set()}
         self.stale = {'P': set(), 'T': set()}
         self.obsolete = False
@@ -191,9 +196,21 @@ class World:
         for j, r in enumerate(self.refs[sd]):
             if r() is obj:
                 return j
+        older = self.ref_attached_alive(sd, k)
         self.refs[sd].append(weakref.ref(obj))
         self.keyof[sd].append(k)
+        self.att[sd].append(True)
+        self.allocs.append((sd, len(self.refs[sd]) - 1, k, older))
         return len(self.refs[sd]) - 1
+
+    def ref_attached_alive(self, sd, k, but=None):
+        return [i for i, r in enumerate(self.refs[sd]) if self.keyof[sd][i] == k and self.att[sd][i] and r() is not None
+                and i != but]
+
+    def detach_key(self, sd, k, but=None):
+        for i in range(len(self.att[sd])):
+            if self.keyof[sd][i] == k and i != but:
+                self.att[sd][i] = False
 
     def hold(self, sd, obj, k):
         j = self.index_of(sd, obj, k)
@@ -227,6 +244,7 @@ class World:
             out.append('purge %s %d' % (sd, c))
             for k in moved:
                 out.append('weaken %s %d' % (sd, c * 1000 + k))
+                self.weakened[sd].add(c * 1000 + k)
             self.need_gc = True
         return out
 
@@ -244,16 +262,19 @@ class World:
         if kind == 'commit' and not self.obsolete:
             for j in self.alive('P'):
                 k = self.keyof['P'][j]
-                pre[j] = (self.try_get('P', k) is self.refs['P'][j](),
-                          self.try_get('T', k) is not None or k in self.txdel,
-                          any(self.keyof['T'][i] == k and r() is not None for i, r in enumerate(self.refs['T'])))
+                pre[j] = (self.att['P'][j],
+                          bool(self.ref_attached_alive('T', k)) or k in self.txdel,
+                          any(self.keyof['T'][i] == k and not self.att['T'][i] for i in range(len(self.refs['T']))),
+                          (not self.dc) or k in self.weakened['T'])
         if kind == 'rollback' and not self.obsolete:
             for j in self.alive('T'):
-                pre[j] = self.try_get('T', self.keyof['T'][j]) is self.refs['T'][j]()
+                pre[j] = self.att['T'][j]
         was_obsolete = self.obsolete
         cs = self.cull_state()
         self.explicit_cull = None
+        self.allocs = []
         line, ans, cached_answer = self.execute(op)
+        self.reference_update(op, kind, sd, ans, was_obsolete)
         extra = self.cull_lines(cs)
         for l in extra:
             self.lines.append(l)
@@ -269,6 +290,25 @@ class World:
         self.lines.append('dump')
         self.impl.append(self.dump())
         self.oracle(op, kind, sd, ans, cached_answer, raw_before, view_before, pre, was_obsolete)
+
+    def reference_update(self, op, kind, sd, ans, was_obsolete):
+        """cache membership as the unchanged code keeps it, from the API calls and their answers only"""
+        for (s2, j, k, older) in self.allocs:
+            if kind in ('get', 'select') and older:
+                self.fail(None, '%s %s built a new instance of row %d although instance %s of it is alive and was never expired '
+                          'or evicted' % (s2, kind, k, older), 'cache-lost-instance')
+            self.detach_key(s2, k, but=j)          # `created`/`put` overwrite the entry of the id
+        if kind in ('expire', 'destroy') and ans == 'ok':
+            self.detach_key(sd, self.keyof[sd][op[2]])
+        if kind == 'commit' and ans == 'ok' and not was_obsolete:
+            for j, r in enumerate(self.refs['P']):
+                k = self.keyof['P'][j]
+                if self.att['P'][j] and r() is not None and (self.ref_attached_alive('T', k) or k in self.txdel):
+                    self.att['P'][j] = False       # expire() evicts
+        if kind == 'rollback' and ans == 'ok' and not was_obsolete:
+            for j, r in enumerate(self.refs['T']):
+                if self.att['T'][j] and r() is not None:
+                    self.att['T'][j] = False
 
     def dump(self):
         def insts(sd):
@@ -359,8 +399,8 @@ class World:
                 return line, 'ok', False
             if kind == 'destroy':
                 line = 'destroy %s %d' % (sd, j)
-                self.destroyed[sd].add(j)
                 obj.destroySelf()
+                self.destroyed[sd].add(j)
                 return line, 'ok', False
             if kind == 'expire':
                 line = 'expire %s %d' % (sd, j)
@@ -492,9 +532,12 @@ class World:
                     'committed database' if s2 == 'P' or view is None else 'transaction view', row)
                 key = None
                 if s2 == 'P' and kind == 'commit' and j in pre:
-                    attached, reached, tx_alive = pre[j]
+                    attached, reached, tx_detached, cull_possible = pre[j]
                     if not reached:
-                        key = K_TXDET if tx_alive else K_CULLED
+                        if tx_detached:
+                            key = K_TXDET
+                        elif cull_possible:
+                            key = K_CULLED
                     elif not attached:
                         key = K_PDET
                 elif s2 == 'T' and kind == 'rollback' and j in pre:
